@@ -49,16 +49,15 @@ VARIABLES m, hist
 vars == <<m, hist>>
 
 \* ------------------------------------------------------------------ order
-\* (TLCEval: TLC would otherwise re-evaluate the function body at every application)
-Rank == TLCEval([k \in Keys |-> 1 + Cardinality({j \in Keys : RleLess(KB[j], KB[k])})])   \* position of k in byte order
-Order == TLCEval([i \in 1..NKeys |-> CHOOSE k \in Keys : Rank[k] = i])                    \* key ids ascending by bytes
+Rank == [k \in Keys |-> 1 + Cardinality({j \in Keys : RleLess(KB[j], KB[k])})]   \* position of k in byte order
+Order == [i \in 1..NKeys |-> CHOOSE k \in Keys : Rank[k] = i]                    \* key ids ascending by bytes
 KLt(a, b) == Rank[a] < Rank[b]
 
 \* ------------------------------------------------------------------ sizes (the real free-space rule)
 PageCapacity == 16384 - 24
 SlotSize == 8
 VarintLen(n) == IF n <= 240 THEN 1 ELSE IF n <= 2287 THEN 2 ELSE 3
-KLen == TLCEval([k \in Keys |-> RleLen(KB[k])])
+KLen == [k \in Keys |-> RleLen(KB[k])]
 CellSize(k, v) == KLen[k] + VarintLen(VLen[v]) + VLen[v]
 FitsPage(k, v) == CellSize(k, v) + SlotSize <= PageCapacity
 SplitSafe(k, v) == 2 * (CellSize(k, v) + SlotSize) <= PageCapacity
